@@ -74,7 +74,37 @@ Step ==
   /\ mon' = mon + 1
   /\ UNCHANGED iid
 
-OSpec == OInit /\ [][Step]_ovars
+(***************************************************************************)
+(* The feed-maximising round (mode "animals").  People's consumption is    *)
+(* pinned (I.hSf, I.hCrop, I.hMeat per month, drawn g units per unit       *)
+(* eaten); feed and biofuel are drawn from stored food and crops, each     *)
+(* within its monthly ceiling and never rising from one month to the next; *)
+(* nothing has to be used up.  The score 2 * feed + biofuel (three times   *)
+(* the code's objective) accumulates in meatUse; at the end of the horizon *)
+(* the best score of the instance is kept in a TLC register.               *)
+(***************************************************************************)
+StepA ==
+  /\ mon < I.n
+  /\ LET m == mon + 1
+         sfAvail == sf - I.g * I.hSf[m]
+         cropAvail == crop + I.crops[m] - I.g * I.hCrop[m]
+         fPrev == IF mon = 0 THEN I.maxF[1] ELSE meatSup \div 1000
+         bPrev == IF mon = 0 THEN I.maxB[1] ELSE meatSup % 1000
+     IN
+     /\ sfAvail >= 0 /\ cropAvail >= 0
+     /\ \E fSf \in 0..Min2(sfAvail, I.maxF[m]), bSf \in 0..Min2(sfAvail, I.maxB[m]) :
+        \E fCrop \in 0..Min2(cropAvail, I.maxF[m]), bCrop \in 0..Min2(cropAvail, I.maxB[m]) :
+          LET f == fSf + fCrop  b == bSf + bCrop IN
+          /\ fSf + bSf <= sfAvail /\ fCrop + bCrop <= cropAvail
+          /\ f <= I.maxF[m] /\ b <= I.maxB[m] /\ f <= fPrev /\ b <= bPrev
+          /\ sf' = sfAvail - fSf - bSf /\ crop' = cropAvail - fCrop - bCrop
+          /\ meatSup' = 1000 * f + b          \* previous month's feed and biofuel totals (packed)
+          /\ meatUse' = meatUse + 2 * f + b   \* score so far
+          /\ hist' = Append(hist, [feed |-> <<fSf, fCrop>>, bio |-> <<bSf, bCrop>>])
+  /\ mon' = mon + 1
+  /\ UNCHANGED iid
+
+OSpec == OInit /\ [][(I.mode # "animals" /\ Step) \/ (I.mode = "animals" /\ StepA)]_ovars
 
 \* no physically feasible allocation feeds `target` (= reported optimum + 1 grid unit) in every month
 NoBetter == ~(mon = I.n)
